@@ -54,6 +54,7 @@ class DurabilityModel:
         self.fd_dir: Dict[int, str] = {}
         self.unsynced_dirs: Set[str] = set()  # directories whose own entry was never synced (informational)
         self.events = 0
+        self.untraced_content = 0
 
     def rel(self, p: str) -> Optional[str]:
         p = os.path.realpath(p) if os.path.isabs(p) else p
@@ -131,6 +132,13 @@ class DurabilityModel:
             if ino is None:
                 return
             self.vol[d] = ino
+            if payload is not None and payload != ino.content:
+                # the bytes now visible under the new name did not come through the traced write path (e.g. a
+                # buffered file object flushed at close): nothing in the trace made THEM durable - an fsync seen
+                # earlier flushed whatever the kernel held at that moment, which was not this content
+                self.untraced_content += 1
+                ino.content = payload
+                self._content_pending(ino, i)
             self.pending.append(Effect("rename", i, os.path.dirname(d), d, ino, src=s))
         elif fn in ("remove", "unlink"):
             r = self.rel(ev.path)
